@@ -106,9 +106,48 @@ def chanName : Option Nat → String
   | some 0 => "global"
   | some k => s!"own{k}"
 
+def contCode : Cont → String
+  | .c => "c"
+  | .wu T => s!"w{T}"
+
+def resCode : Option CbRes → String
+  | none => "-" | some .ok => "o" | some .err => "e" | some .panic => "p"
+
+/-- compact rendering of a pc (part of the memoisation key) -/
+def pcCode : Pc → String
+  | .idle => "a"
+  | .load0 k => "b" ++ contCode k
+  | .iLock k => "c" ++ contCode k
+  | .iCheck k => "d" ++ contCode k
+  | .iMake k => "e" ++ contCode k
+  | .iStore k => "f" ++ contCode k
+  | .iUnlock k => "g" ++ contCode k
+  | .cRead => "h"
+  | .wTimer T => s!"i{T}"
+  | .wSel ch st T => s!"j{chanName ch},{st},{T}"
+  | .isc => "k"
+  | .clLoad cb => if cb then "l1" else "l0"
+  | .clLock cb => if cb then "m1" else "m0"
+  | .clCheck cb => if cb then "n1" else "n0"
+  | .clClose cb => if cb then "o1" else "o0"
+  | .clCbStart => "p"
+  | .clCbRun => "q"
+  | .clStore r => "r" ++ resCode r
+  | .clUnlock r => "s" ++ resCode r
+  | .clRet r => "t" ++ resCode r
+
 def Cfg.key (c : Cfg) (n : Nat) : String :=
-  let pcs := (List.range n).map fun g => toString (repr (c.s.pc g)) ++ "#" ++ toString (c.idx[g]!)
+  let pcs := (List.range n).map fun g => pcCode (c.s.pc g) ++ "#" ++ toString (c.idx[g]!)
   s!"{c.s.now}|{c.s.state}|{chanName c.s.closeChan}|{c.s.closed.length}|{c.s.mu}|{c.s.fault}|{c.ncb}|{c.cbEndAt}|" ++ "|".intercalate pcs
+
+/-- Steps that commute with every step of every other goroutine at the same instant (they touch no shared word another
+    goroutine can observe in a different way before or after): taking them first loses no observable behaviour, so the
+    search does not branch on them.  invoke (only sets the pc), the plain re-checks under the mutex, `closeChan = make`
+    (nobody reads closeChan while state is new and the mutex is held), the read of closeChan by C()/WaitUtil (written at
+    most once, before any read), the callback start and the return steps. -/
+def eagerPc : Pc → Bool
+  | .iCheck _ | .iMake _ | .cRead | .wTimer _ | .clCheck _ | .clCbStart | .clRet _ => true
+  | _ => false
 
 /-- does the event the model just produced agree with the observation? -/
 def evOk (o : Obs) (c : Cfg) : Ev → Bool
@@ -138,8 +177,7 @@ def Cfg.act (o : Obs) (c : Cfg) (a : Act) : Option Cfg :=
   if s'.log.all (evOk o c) then some { c with s := s' } else none
 
 /-- successor configurations at the current instant -/
-def succs (progs : Array (Array (Nat × Op))) (o : Obs) (c : Cfg) : List Cfg :=
-  (List.range progs.size).flatMap fun g =>
+def succsOf (progs : Array (Array (Nat × Op))) (o : Obs) (c : Cfg) (g : Nat) : List Cfg :=
     match c.s.pc g with
     | .idle =>
       match (progs[g]!)[c.idx[g]!]? with
@@ -168,6 +206,19 @@ def succs (progs : Array (Array (Nat × Op))) (o : Obs) (c : Cfg) : List Cfg :=
       (if (start : Int) + T ≤ c.s.now then (c.act o (.timeout g)).toList else [])
     | .iLock _ | .clLock _ => if c.s.mu.isNone then (c.act o (.step g)).toList else []
     | _ => (c.act o (.step g)).toList
+
+/-- is goroutine g about to take a step the search need not branch on? (an idle goroutine whose next call is due: invoke) -/
+def eagerAt (progs : Array (Array (Nat × Op))) (c : Cfg) (g : Nat) : Bool :=
+  match c.s.pc g with
+  | .idle => match (progs[g]!)[c.idx[g]!]? with
+    | some (at_, _) => at_ ≤ c.s.now
+    | none => false
+  | p => eagerPc p
+
+def succs (progs : Array (Array (Nat × Op))) (o : Obs) (c : Cfg) : List Cfg :=
+  match (List.range progs.size).find? (eagerAt progs c) with
+  | some g => succsOf progs o c g          -- one commuting step, no branching (empty = contradicts the observation)
+  | none => (List.range progs.size).flatMap (succsOf progs o c)
 
 /-- is some goroutine runnable at this instant (regardless of the observation)? -/
 def runnable (progs : Array (Array (Nat × Op))) (c : Cfg) : Bool :=
@@ -200,23 +251,53 @@ def finalOk (o : Obs) (c : Cfg) : Bool :=
   c.ncb == o.cbs.length && !c.s.fault &&
   (match o.isclosed with | some b => b == decide (c.s.state = wcClosed) | none => true)
 
-def search (progs : Array (Array (Nat × Op))) (o : Obs) :
-    Nat → Cfg → Std.HashSet String → Bool × Std.HashSet String
-  | 0, _, vis => (false, vis)
-  | fuel + 1, c, vis =>
+/-- Early pruning by facts that are permanent in the model (theorems C16_returned_channels_closed / C16_isclosed_stable):
+    once closeChan is set it never changes, so every C() call that has not returned yet must have observed exactly that
+    channel; once the state word is `closed`, every IsClosed() call that has not returned yet must have observed true. -/
+def feasible (progs : Array (Array (Nat × Op))) (o : Obs) (c : Cfg) : Bool :=
+  -- the close/assignment happens once (C16_one_callback): after it, a callback that has not been started and is not
+  -- about to start will never run
+  (!(c.s.closeTime.isSome && c.ncb < o.cbs.length) ||
+      (List.range progs.size).any fun g => c.s.pc g == .clCbStart) &&
+  (List.range progs.size).all fun g =>
+    let first := if c.s.pc g == .idle then c.idx[g]! else c.idx[g]! - 1     -- first call of g that has not returned
+    (List.range (progs[g]!).size).all fun i =>
+      if i < first then true else
+      match (progs[g]!)[i]?, (o.rets[g]!)[i]? with
+      | some (_, .C), some (_, _, v) =>
+        (match c.s.closeChan with | some ch => v == chanName (some ch) | none => true)
+      | some (_, .I), some (_, _, v) => if c.s.state = wcClosed then v == "1" else true
+      | _, _ => true
+
+/-- exploration limits.  Hitting one of them NEVER rejects: the answer is `ok unchecked …` (the line is then judged by
+    the property oracle only and counted as `monitor_unchecked_lines` in the evidence). -/
+def maxStates : Nat := 40000
+def maxDepth : Nat := 100000
+
+structure Acc where
+  found : Bool
+  cut : Bool                       -- the search was cut off somewhere (depth fuel or state cap)
+  vis : Std.HashSet String
+
+def search (progs : Array (Array (Nat × Op))) (o : Obs) : Nat → Cfg → Acc → Acc
+  | 0, _, acc => { acc with cut := true }
+  | fuel + 1, c, acc =>
+    if acc.found then acc else
+    if acc.vis.size ≥ maxStates then { acc with cut := true } else
+    if !feasible progs o c then acc else
     let k := c.key progs.size
-    if vis.contains k then (false, vis) else
-    let vis := vis.insert k
+    if acc.vis.contains k then acc else
+    let acc := { acc with vis := acc.vis.insert k }
     if runnable progs c then
-      (succs progs o c).foldl (fun (acc : Bool × Std.HashSet String) c' =>
-        if acc.1 then acc else search progs o fuel c' acc.2) (false, vis)
+      (succs progs o c).foldl (fun (acc : Acc) c' =>
+        if acc.found then acc else search progs o fuel c' acc) acc
     else
       match nextInstant progs c with
       | some t =>
         let s' := step c.s (.tick (t - c.s.now))
-        if s'.now = t then search progs o fuel { c with s := s' } vis
-        else (false, vis)   -- the model refuses to let time pass (cannot happen: nobody is runnable)
-      | none => (finished progs c && finalOk o c, vis)
+        if s'.now = t then search progs o fuel { c with s := s' } acc
+        else acc   -- the model refuses to let time pass (cannot happen: nobody is runnable)
+      | none => if finished progs c && finalOk o c then { acc with found := true } else acc
 
 def parseProgs (s : String) : Option (Array (Array (Nat × Op))) :=
   ((s.splitOn " / ").mapM fun p => ((words p).mapM parseCall).map List.toArray).map List.toArray
@@ -247,8 +328,10 @@ def monitor (line : String) : String :=
           let n := progs.size
           let c : Cfg := { s := init, idx := Array.replicate n 0, cbEndAt := Array.replicate n 0,
                            cbRes := Array.replicate n .ok, ncb := 0 }
-          let (found, vis) := search progs o 100000 c {}
-          if found then "ok" else s!"reject no model execution produces this observation (explored {vis.size} states)"
+          let r := search progs o maxDepth c { found := false, cut := false, vis := {} }
+          if r.found then "ok"
+          else if r.cut then s!"ok unchecked search cut off after {r.vis.size} states (no verdict from the model)"
+          else s!"reject no model execution produces this observation (explored {r.vis.size} states, exhaustive)"
         | none => "reject unparsable observation"
       | none => "bad-script"
     | _ => "bad-script"
